@@ -99,10 +99,11 @@ func (v *V2) ReadRecordWithValidation(buf []byte, startFileOffset uint32) (paylo
 
 func (v *V2) ReadHeaderWithValidation(buf []byte, startFileOffset uint32) (payloadSize uint32, previousCrc uint32, payloadCrc uint32, err error) {
 	bufSize := uint32(len(buf))
-	if startFileOffset >= bufSize {
+	// the size field itself must be inside the buffer
+	if startFileOffset >= bufSize || bufSize-startFileOffset < v2PayloadSizeLen {
 		return payloadSize, previousCrc, payloadCrc,
 			errors.Wrapf(ErrOffsetOutOfBounds, "expected payload size: %d. actual buf size: %d ",
-				startFileOffset+v2PayloadSizeLen, bufSize)
+				uint64(startFileOffset)+uint64(v2PayloadSizeLen), bufSize)
 	}
 
 	var headerOffset uint32
@@ -114,12 +115,13 @@ func (v *V2) ReadHeaderWithValidation(buf []byte, startFileOffset uint32) (paylo
 		return payloadSize, previousCrc, payloadCrc, errors.Wrapf(ErrEmptyPayload, "unexpected empty payload")
 	}
 
-	expectSize := payloadSize + v.HeaderSize
-	// overflow checking
+	// overflow checking: payloadSize + HeaderSize can wrap around uint32, so compare
+	// the payload size with the room that is left after the header instead
 	actualBufSize := bufSize - startFileOffset
-	if expectSize > actualBufSize {
+	if actualBufSize < v.HeaderSize || payloadSize > actualBufSize-v.HeaderSize {
 		return payloadSize, previousCrc, payloadCrc,
-			errors.Wrapf(ErrOffsetOutOfBounds, "expected payload size: %d. actual buf size: %d ", expectSize, bufSize)
+			errors.Wrapf(ErrOffsetOutOfBounds, "expected payload size: %d. actual buf size: %d ",
+				uint64(payloadSize)+uint64(v.HeaderSize), bufSize)
 	}
 
 	previousCrc = ReadInt(buf, startFileOffset+headerOffset)
@@ -184,6 +186,10 @@ func (v *V2) ReadIndex(path string) ([]byte, error) {
 	}
 	if err = idFile.Close(); err != nil {
 		return nil, errors.Wrapf(err, "failed to close segment index file %s", path)
+	}
+	if uint32(len(indexBuf)) < v.GetIndexHeaderSize() {
+		// e.g. the file was created but its content never reached the disk
+		return nil, errors.Wrapf(ErrDataCorrupted, "index file %s is shorter than its header: %d bytes", path, len(indexBuf))
 	}
 	expectedCrc := ReadInt(indexBuf, 0)
 	actualCrc := crc.Checksum(0).Update(indexBuf[v.GetIndexHeaderSize():]).Value()
